@@ -7,6 +7,8 @@ def run(res, tier, replay=None):
     prog = extract.load_program("default")
     res.functions = sum(1 for _ in prog.all_funcs())
     c15.run_a(prog, res)
+    c15.run_c(prog, res)
+    c15.run_d(prog, res)
     cg = callgraph.CallGraph(prog)
     recursion.run(prog, res, "C15", "C15.b", roots=["sexp_equalp_op", "sexp_hash"], floor=2, cg=cg)
     res.assumptions = common.ASSUMPTIONS
@@ -14,9 +16,11 @@ def run(res, tier, replay=None):
         "C15 structural clauses: (a) kind-set dataflow over sexp_equalp_bound and hash_one: the heap tags for which equal? "
         "returns through a semantic comparator (bignum value compare, flonum eqv) are disjoint from the tags whose raw "
         "trailing bytes hash_one hashes - otherwise two equal? values hash differently; (b) the recursion of both functions "
-        "passes through a verified depth bound. Not decided: hash-table operation histories, (chibi equiv), eqv? on numbers.")
+        "passes through a verified depth bound; (c) hash_one folds a value's machine word into the hash only where the value is an immediate (never a heap address); (d) the C hash-table primitives update the size slot on exactly the paths that link/unlink a chain entry. Not decided: hash-table operation histories, (chibi equiv), eqv? on numbers.")
     if tier == "thorough":
         common.thorough_mutations(res, "C15", {
             "C15.a": lambda p, r: c15.run_a(p, r),
+            "C15.c": lambda p, r: c15.run_c(p, r),
+            "C15.d": lambda p, r: c15.run_d(p, r),
             "C15.b": lambda p, r: recursion.run(p, r, "C15", "C15.b", roots=["sexp_equalp_op", "sexp_hash"], floor=0),
         })
